@@ -112,6 +112,13 @@ def __setitem__(self, indx, arg):
 
         arg = self.as_this_type(arg, recursive=True)
 
+        # Items need to match, because the arrays are replaced as a whole
+        if arg._numer_ != self._numer_:
+            Qube._raise_incompatible_numers('[]', self, arg)
+
+        if arg._denom_ != self._denom_:
+            Qube._raise_incompatible_denoms('[]', self, arg)
+
         # Shapes need to match
         if shape_after:
             arg = arg.reshape(arg._shape_[:-len(shape_after)])
